@@ -608,6 +608,9 @@ class ABCTune(object):
       elif (match.re == ABCTune.BAR_AND_REPEAT_SYMBOLS_PATTERN or
             match.re == ABCTune.REPEAT_SYMBOLS_PATTERN):
         if match.re == ABCTune.REPEAT_SYMBOLS_PATTERN:
+          # '::' is shorthand for ':||:', so it also starts a new bar.
+          self._bar_accidentals.clear()
+
           colon_count = len(match.group(1))
           if colon_count % 2 != 0:
             raise RepeatParseError(
